@@ -202,6 +202,8 @@ func verdict18(l *logImg, res readRes, minN int, exact bool) (class, desc string
 	switch {
 	case res.Panic != "":
 		return "panic", "reader panicked: " + res.Panic
+	case res.Bad != "" && res.Partial:
+		return "partial-record", res.Bad
 	case res.Bad != "":
 		return "foreign-record", res.Bad
 	case exact && (res.N != len(l.Recs) || res.Err != io.EOF):
